@@ -4,6 +4,11 @@ under the real sync drivers, against small local stand-ins for the ssh binary:
  * a /bin/sh "device" that prints the platform's prompt, answers every line with the prompt, and EXITS at a
    chosen point (before the first prompt, after the n-th input line, a number of lines after a trigger
    command) in a chosen way (exit 0, exit 255, SIGKILL) — so the transport reads the EOF *before* close();
+ * the same "device" WEDGED like an ssh / ProxyCommand wrapper that outlives its remote shell: it IGNORES a chosen
+   set of signals (none | HUP | INT | HUP+INT | HUP+INT+TERM; `trap ''` is the first statement, so the dispositions
+   are in place before the first prompt is printed = before any operation can start) and, instead of exiting on
+   "exit" or on the end of its input (pty master closed), it LINGERS (exec sleep: same pid, ignored signals stay
+   ignored across the exec, no grandchild) — so close() itself has to get rid of a child that is still running;
  * an "ssh" that cannot be exec'd after the fork: corrupt executable (ENOEXEC), script with a missing
    interpreter (ENOENT), an argument too long for execve (E2BIG); given through open_cmd or found first on
    PATH (then the real _build_open_cmd builds the command line); and one that is not executable at all
@@ -27,11 +32,17 @@ PROMPT = {"cisco_iosxe": "router1#", "cisco_iosxr": "RP/0/RP0/CPU0:router1#", "c
           "arista_eos": "router1#", "juniper_junos": "admin@router1> ", "generic": "router1#"}
 HOWS = ["exit0", "exit255", "kill9"]
 EXEC_FAILS = ["enoexec", "bad_interp", "e2big"]      # fork happens, execv fails
+# signals a wedged stand-in ignores (it lingers after "exit" / end of input in every case)
+IGNORES = [[], ["HUP"], ["INT"], ["HUP", "INT"], ["HUP", "INT", "TERM"]]
+STUBBORN = [["HUP", "INT"], ["HUP", "INT", "TERM"]]   # neither the hang-up nor the polite signals of terminate() end these
+SIGNAMES = ("HUP", "INT", "TERM", "QUIT", "CONT")
 NO_FORK_FAILS = ["not_exec"]                          # refused by which() before the fork
 
 # $1 prompt  $2 die at the n-th input line (0: before the first prompt, -: never)  $3 trigger line
 # $4 die that many lines after the trigger (0: on the trigger itself, -: never)  $5 how to die
-DEVICE_SH = r'''p=$1; at=$2; trig=$3; delay=$4; how=$5
+# $6 L: linger (do not exit) after "exit" / end of input, -: exit  $7 signals to ignore (names, blank separated; may be empty)
+DEVICE_SH = r'''p=$1; at=$2; trig=$3; delay=$4; how=$5; lg=${6:--}; ign=${7:-}
+[ -n "$ign" ] && trap '' $ign
 n=0; m=-1
 die() { case $how in exit255) exit 255;; kill9) kill -9 $$;; *) exit 0;; esac; }
 [ "$at" = 0 ] && die
@@ -40,9 +51,11 @@ while IFS= read -r line; do
   n=$((n+1))
   if [ "$m" -ge 0 ]; then m=$((m+1)); elif [ "$line" = "$trig" ]; then m=0; fi
   if [ "$n" = "$at" ] || [ "$m" = "$delay" ]; then die; fi
-  [ "$line" = exit ] && exit 0
+  if [ "$line" = exit ]; then [ "$lg" = L ] && break; exit 0; fi
   if [ "$line" = "show version" ]; then printf 'v1\n%s' "$p"; else printf '\n%s' "$p"; fi
 done
+[ "$lg" = L ] && exec sleep 600
+exit 0
 '''
 
 
@@ -149,8 +162,12 @@ def child_cmd(kind, child, tmpdir):
     if child["kind"] == "device":
         def f(x):
             return "-" if x is None else str(x)
+        ign = child.get("ignore")
+        if ign is not None and not all(x in SIGNAMES for x in ign):
+            raise ValueError(ign)
         return ["/bin/sh", "-c", DEVICE_SH, "ssh-standin", PROMPT[kind], f(child.get("die_at")),
-                child.get("die_on") or "-", f(child.get("delay")), child.get("how", "exit0")], None
+                child.get("die_on") or "-", f(child.get("delay")), child.get("how", "exit0"),
+                "-" if ign is None else "L", " ".join(ign or [])], None
     if child["kind"] == "exec_fail":
         d, p = broken_ssh(tmpdir, child["why"])
         if child.get("via") == "path":
@@ -409,7 +426,53 @@ def over_scenarios(rng, thorough):
              "ops": _over_ops(rng, rng.choice(["drop_open_open", "drop_open_open", "drop_open_with"]))}]
 
 
-def gen_history(rng):
+def wedged(ignore):
+    """a stand-in that answers like a healthy device, ignores the signals named and lingers after "exit" / end of input"""
+    return _dev(ignore=list(ignore))
+
+
+def gen_child_wedged(rng):
+    """for the random histories of the wedged family: mostly wedged stand-ins, some that go away by themselves"""
+    if rng.random() < 0.7:
+        return wedged(rng.choice(IGNORES + STUBBORN))
+    return gen_child(rng)
+
+
+def wedge_scenarios(rng, thorough):
+    """children that are STILL RUNNING when close() is called and do not go away by being asked: every set of ignored
+    signals, left through a with-block (normal exit / body exception) and through close() / close() again / re-open;
+    thorough adds every platform, sessions replaced by another open() and random histories.  Own generator stream in the
+    caller.  quick: one with-block over a child that ignores HUP, INT and TERM, one plain history over a drawn smaller set."""
+    out = []
+
+    def add(kind, ops):
+        out.append({"kind": kind, "log": rng.random() < 0.5, "ops": ops})
+
+    def w_with(ign, reopen):
+        ops = [{"op": "with", "child": wedged(ign), "body_ops": rng.choice([0, 1]), "body_exc": rng.choice([None, "ValueError"])},
+               {"op": "close"}]
+        return ops + ([{"op": "with", "body_ops": 1}] if reopen else [])
+
+    if not thorough:
+        add(rng.choice(KINDS), w_with(STUBBORN[-1], False))       # the hardest to get rid of short of SIGKILL
+        add(rng.choice(KINDS), _plain_ops(wedged(rng.choice(IGNORES[:-1])), True))
+        return out
+    for kind in KINDS:
+        for ign in IGNORES:
+            add(kind, w_with(ign, True))
+            add(kind, _plain_ops(wedged(ign), True))
+    for ign in IGNORES[1:]:
+        w = wedged(ign)
+        # the wedged session is replaced by another open() / with-block on the same object, never closed by the user
+        add(rng.choice(KINDS), [{"op": "open", "child": w}, {"op": "operate"}, {"op": "open"}, {"op": "operate"}, {"op": "close"}, {"op": "close"}])
+        add(rng.choice(KINDS), [{"op": "open", "child": w}, {"op": "with", "child": w, "body_ops": 1, "body_exc": rng.choice([None, "ValueError"])},
+                                {"op": "close"}, {"op": "with", "body_ops": 1}])
+    out += [gen_history(rng, gen_child_wedged) for _ in range(12)]
+    return out
+
+
+def gen_history(rng, child_gen=None):
+    child_gen = child_gen or gen_child
     kind = rng.choice(CORE + CORE + ["generic"])
     ops = []
     is_open = False
@@ -418,7 +481,7 @@ def gen_history(rng):
         op = {"op": k}
         if k in ("open", "with"):
             if rng.random() < 0.75:
-                op["child"] = gen_child(rng)
+                op["child"] = child_gen(rng)
             if k == "with":
                 op["body_ops"] = rng.choice([0, 1, 1, 2])
                 op["body_exc"] = rng.choice([None, None, "ValueError", "KeyError"])
@@ -442,7 +505,8 @@ def classify(sc, obs):
     for op, o in zip(sc["ops"], obs):
         c = op.get("child")
         if op["op"] in ("open", "with"):
-            what = "healthy" if c is None or _clean(op) else (c["why"] + "/" + c.get("via", "") if c["kind"] == "exec_fail" else
+            what = ("ignores %s, lingers" % ("+".join(c["ignore"]) or "nothing")) if c and c.get("ignore") is not None else \
+                "healthy" if c is None or _clean(op) else (c["why"] + "/" + c.get("via", "") if c["kind"] == "exec_fail" else
                                                             "die_at=%s" % c["die_at"] if "die_at" in c else "die_after_cmd+%s" % c["delay"])
             keys.append("%s %s -> %s" % (op["op"], what, o["res"]))
     return keys
